@@ -2864,7 +2864,8 @@ func (p *Parser) lookaheadSimpleType() bool {
 
 	for _, name := range simpleTypes {
 		if id.IsIdent(name) {
-			return true
+			// A scalar type name followed by "." is the first component of a named type (date.T).
+			return p.lookaheadToken().Kind != "."
 		}
 	}
 	return false
